@@ -142,7 +142,18 @@ def check(s):
     from .C06 import check_flatten, check_sample
     check_flatten(s, "C12.6")
     check_sample(s, "C12.6", "C12.6")
-    for r_, n_ in (("C12.1", 300), ("C12.2", 41), ("C12.3", 16), ("C12.4", 2), ("C12.5", 50), ("C12.6", 10)):
+    # ---------------------------------------------------------------- C12.7 the adapters are the places where a lerax environment is jitted by
+    # someone else (gymnax jits step / reset with `self` static) or driven through hidden state (the Gymnasium adapter's running key):
+    # an equality that ignores part of the adapted environment makes the jitted call disagree with the eager one, a re-seed that is
+    # skipped for seed 0 makes reset(seed=0) depend on the adapter's history
+    from ..effects import incomplete_equality
+    ie = incomplete_equality(P)
+    s.ob("C12.7", "custom __eq__", not ie, "every class that defines __eq__ compares all of its state (equality of static arguments keys the jit caches)", ie[0][1] + f":{ie[0][2]}" if ie else "",
+         key="incomplete-equality", detail="; ".join(f"{q} ignores {', '.join(ms)}" for q, _, _, ms in ie),
+         necessary_for="every environment function gives the same result eagerly and under jit")
+    from .C13 import check_adapters
+    check_adapters(s, rule="C12.7")
+    for r_, n_ in (("C12.1", 300), ("C12.2", 41), ("C12.3", 16), ("C12.4", 2), ("C12.5", 50), ("C12.6", 10), ("C12.7", 10)):
         s.floor(r_, n_)
 
 
